@@ -270,7 +270,7 @@ func trErrOf(ids TV) error {
 }
 
 func (s *trSink) Write(p []byte) (int, error) {
-	*s.writes = append(*s.writes, tvList([]TV{s.v, tvBytes(p)}))
+	*s.writes = append(*s.writes, tvList([]TV{tvBytes([]byte("sink.Write")), s.v, tvBytes(p)}))
 	return s.n, s.werr
 }
 func (s *trSink) Sync() error { return s.serr }
